@@ -172,7 +172,9 @@ func TestC10Handlers(t *testing.T) {
 						answer = append(append([]byte{}, mac...), 0, 0, 0, 0, 0, 0)[:6]
 					}
 					s.arp = map[uint32]arpResp{}
+					s.arpMu.Lock()
 					s.arpSeen = map[uint32]int{}
+					s.arpMu.Unlock()
 					if who != "nobody" {
 						for a := cfg.rangeB; a <= cfg.rangeE; a++ {
 							s.arp[a] = arpResp{ip: a, mac: answer, delay: time.Duration(1+r.Intn(150)) * time.Millisecond}
